@@ -221,7 +221,16 @@ func genBatch(c *Cer, round string, proposer int, bno int, prev [][]byte, maxBak
 				}
 				ts = append(ts, TaskSpec{Baked: true, Start: start, End: start + ln})
 			} else {
-				ts = append(ts, TaskSpec{File: fmt.Sprintf("b%d-%d %s", bno, j, fileNames[w.Tape.Choose(len(fileNames), "fname")]), Payload: genPayload(w, "pl")})
+				spec := TaskSpec{File: fmt.Sprintf("b%d-%d %s", bno, j, fileNames[w.Tape.Choose(len(fileNames), "fname")]), Payload: genPayload(w, "pl")}
+				if w.Tape.Bool(1, 5, "explicitTaskWithRangeFields") {
+					// a task that carries its payload and, beside it, range fields (a participant
+					// writes its own task list; nothing forbids filling in both): what it proposes
+					// is the payload it spells out
+					spec.Start = bakedStart(w)
+					spec.End = spec.Start + 1 + w.Tape.Choose(3, "strayRangeLen")
+					w.Stats.Fault("explicit-task-with-range-fields")
+				}
+				ts = append(ts, spec)
 			}
 		}
 		c.ProposeRaw(proposer, round, ts)
